@@ -70,3 +70,62 @@ func TestVerifToFileGiveUpBin(t *testing.T) {
 		src.Down()
 	}
 }
+
+// TestVerifToFileGzipLevelBin: the real binary must refuse every --gzip-level outside 1..9 before it consumes
+// anything (compress/gzip would return a nil writer, the first write would panic).
+func TestVerifToFileGzipLevelBin(t *testing.T) {
+	bin := os.Getenv("VF_E8_TOFILE_BIN")
+	if bin == "" || os.Getenv("VF_E8_CASE") != "" {
+		t.Skip("needs the nsq_to_file binary; parent only")
+	}
+	for _, level := range []string{"0", "10", "-1", "-3", "100"} {
+		root := t.TempDir()
+		src := vfNewStubNsqd()
+		cmd := exec.Command(bin, "--nsqd-tcp-address", src.addr, "--topic", "t", "--output-dir", root, "--gzip",
+			"--gzip-level="+level, "--sync-interval", "20ms", "--host-identifier", "h", "--log-level", "fatal")
+		if err := cmd.Start(); err != nil {
+			t.Fatal(err)
+		}
+		exited := make(chan error, 1)
+		go func() { exited <- cmd.Wait() }()
+		started, code, resp := false, -1, "none"
+		deadline := time.After(8 * time.Second)
+	wait:
+		for {
+			select {
+			case err := <-exited:
+				code = 0
+				if ee, ok := err.(*exec.ExitError); ok {
+					code = ee.ExitCode()
+				}
+				break wait
+			case <-deadline:
+				break wait
+			case <-time.After(5 * time.Millisecond):
+				if src.Subscribed() {
+					started = true
+					break wait
+				}
+			}
+		}
+		if started {
+			src.Deliver("0123456789abcdef", 1, []byte("gzlevel"))
+			select {
+			case resp = <-src.Resp:
+			case err := <-exited:
+				resp = "died"
+				code = 0
+				if ee, ok := err.(*exec.ExitError); ok {
+					code = ee.ExitCode()
+				}
+			case <-time.After(8 * time.Second):
+			}
+		}
+		if code == -1 {
+			cmd.Process.Kill()
+			<-exited
+		}
+		fmt.Printf("GZLEVEL level=%s started=%v exit=%d response=%s\n", level, started, code, strings.Fields(resp + " -")[0])
+		src.Down()
+	}
+}
